@@ -86,6 +86,14 @@ CHECKS = {
         "rule": "all-small-arrays: exhaustive. random-arrays: length clustered at 2^k-1..2^k+1 or uniform, shapes random/dups/sorted/reversed/sawtooth/organpipe, via sorter/Array/List/Catalog. non-trivial = length >= 2 and (not already sorted under the ranker, or the ranker is inconsistent). distinct = distinct decoded cases.",
         "assumptions": [],
     },
+    "C10": {
+        "parts": [{"pkg": "notation", "test": "TestC10", "subs": ["roundtrip", "typed-fixpoint", "deep-and-cyclic", "format-histories"]}],
+        "technique": "round-trip property testing (rapid) over a recursive generator of the canonical value universe; oracle = bit-exact abstract comparison before/after ParseSource(FormatValue(v)), text fixpoint, fresh-notation differential for call histories",
+        "level_text": "Values are drawn from a recursive generator over the canonical universe (nil, bool, int64 and uint64 boundaries, every float64 magnitude class incl. exponent bands, subnormals and signed zero, complex, every rune class, strings with escapes and invalid UTF-8, all seven collection kinds, empty/singleton/multi-item, sizes to 40, nesting to the formatter's 8 levels), built through the class constructors, formatted, parsed, and compared bit-exactly through an abstraction function that uses the public API only; the parsed value must format to the same text (a Map with >= 2 entries: to a text that parses to the same value); String(), a notation instance and the module function must agree. Typed variants (int8..uint, float32, complex64, Go slices and maps) are checked for the text fixpoint. Deeper-than-limit nests and self-containing collections (cycle length 1..3, alone or among siblings) must return a text with the elision marker (a fatal stack overflow is caught through the case journal). Call histories mixing supported and unsupported values on one notation/formatter must print what a fresh notation prints.",
+        "level_note": "Non-finite floats, invalid code points and non-intrinsic keys are outside the stated universe. Text size is bounded (the parser is quadratic). A self-containing Set is replaced by a List (inserting a set into itself needs the ranking C08 owns).",
+        "rule": "roundtrip: non-trivial = the value contains a collection of >= 2 items or a leaf from a non-default class (exponent form, subnormal, boundary integer, non-ASCII or escaped rune/string). typed-fixpoint: >= 2 numbers. format-histories: a successful call follows a failed one. deep-and-cyclic: every case. distinct = distinct decoded cases (FNV-64 of the rendered value).",
+        "assumptions": ["'never hangs' is decided by the 60 s watchdog; process death (stack overflow) by the per-case journal"],
+    },
     "C13": {
         "parts": [{"pkg": "seq", "test": "TestC13", "subs": ["history", "words", "ctor-sizes"], "thorough_shards": 8}],
         "technique": "model-based stateful property testing (rapid) against a top-first slice model + exhaustive enumeration of push/pop words and constructor sizes",
